@@ -77,3 +77,17 @@ Proof. exact strict_progress. Qed.
 
 Example C19_example : step_point [1] [0] 1 = [0] /\ dot [2] (vsub [0] [1]) <= - (dist2 [0] [1] / (1 / 2)).
 Proof. exact step_example. Qed.
+
+(* ---- step() regenerated from device_kit/solve.py on every run (Gen/Solve.v: the gradient step with its sign, what the projection helper
+        is given, the tolerated report (status 8) of both inner calls, the limited minimisation's objective and its bounds [(0, 1)], the final
+        convex combination reshaped to the device shape) IS step_model, for EVERY behaviour of the two inner optimiser calls.  Any carrier. ---- *)
+From DK.Model Require Import SolveOps.
+From DK.Gen Require Import Solve.
+From DK.Proofs Require Import GenSolve.
+Theorem C19_source_step : forall (A : Type) (NA : Num A) (uproject : projcall A -> optresult A) (linesearch : (A -> A) -> optresult A) dv s t,
+  step_gen uproject (fun _ => linesearch) dv s t = step_model uproject linesearch dv s t.
+Proof. intros A NA. exact (@gen_step A NA). Qed.
+Theorem C19_source_line_search_is_asked_for_0_to_1 : forall (A : Type) (NA : Num A) (uproject : projcall A -> optresult A)
+  (ls ls' : A * A -> (A -> A) -> optresult A) dv s t,
+  (forall phi, ls (n0, n1) phi = ls' (n0, n1) phi) -> step_gen uproject ls dv s t = step_gen uproject ls' dv s t.
+Proof. intros A NA. exact (@gen_step_linesearch_bounds A NA). Qed.
